@@ -59,6 +59,12 @@ func cells() []h2term.Cell {
 	for _, ev := range h2term.DialingEvents {
 		cs = append(cs, h2term.Cell{Kind: "cell", Event: ev, State: "dialing", Delay: "-"})
 	}
+	// the relay driven through a real martian.Proxy (CONNECT + MITM + ALPN h2) with a short timeout
+	for _, st := range h2term.ProxyStates {
+		for _, ev := range h2term.ProxyEvents {
+			cs = append(cs, h2term.Cell{Kind: "cell", Event: ev, State: st, Delay: "-"})
+		}
+	}
 	return cs
 }
 
@@ -169,7 +175,12 @@ var budget = h2term.NewBudget()
 func runCell(r *vh.Run, c h2term.Cell) {
 	var last *h2term.Result
 	for attempt := 0; attempt < attemptsPerCell; attempt++ {
-		res := h2term.RunCell(c, r.Rng("c10", c.Idx), budget)
+		var res *h2term.Result
+		if strings.HasPrefix(c.State, "proxy-") {
+			res = h2term.RunProxyCell(c, r.Rng("c10", c.Idx), budget)
+		} else {
+			res = h2term.RunCell(c, r.Rng("c10", c.Idx), budget)
+		}
 		last = res
 		r.Count("cell_runs", 1)
 		if !res.Established {
